@@ -26,7 +26,9 @@ RULE = ("one evaluation = one compress -> select -> decompress round trip on gen
         "arrival order, compress-twice).")
 INTERLEAVING_MEASURE = "distinct (W, arrival order of compress jobs, lazy flag, compress-twice flag) tuples"
 PROBES = ["unordered_permuted", "w1_shared_mode", "wN_copy_mode", "compress_twice", "zero_row_group",
-          "boundary_selection", "repeated_rows", "mixed_column_sets", "multi_einsum", "lazy_calls"]
+          "boundary_selection", "repeated_rows", "mixed_column_sets", "multi_einsum", "lazy_calls",
+          "real_table_runs", "real_table_groups", "real_table_rows"]
+REAL_EVERY = 96  # every REAL_EVERY-th seed uses real pmapping tables from make_pmappings
 REAL_VS_STUB = {
     "real": ["compress_einsum2pmappings/_compress_pmapping_list/_compress", "decompress_pmappings",
              "PmappingGroup, PmappingDataframe, Compatibility, pandas merge/concat",
@@ -43,6 +45,10 @@ _S = {}
 
 
 def init(ctx):
+    import logging
+    import warnings
+    warnings.filterwarnings("ignore")
+    logging.disable(logging.WARNING)
     import pandas as pd
     import numpy as np
     from accelforge.mapper.FFM._join_pmappings import compress_pmappings as cp
@@ -335,6 +341,144 @@ def execute(sc, tape):
     return viols, info
 
 
+# ------------------------------------------------------------------ real tables (sub-batch)
+def gen_real_scenario(seed):
+    from sim import specgen
+    r = random.Random(seed ^ 0xC15)
+    p = specgen.gen_params(r, max_einsums=2)
+    p["rf"] = False
+    p["M"] = min(p["M"], 4)
+    p["N"] = [min(x, 4) for x in p["N"]]
+    return {"real": True, "params": p, "W": r.choice([1, 2, 3, 4, 8]),
+            "order_mode": r.choice(["durations"] * 3 + ["reverse", "rotate"]),
+            "compress_twice": r.random() < 0.3, "n_result": r.choice([2, 5, 20, 60]),
+            "sel_seed": r.getrandbits(32), "tape_seed": r.getrandbits(48)}
+
+
+def execute_real(sc, tape):
+    """compress -> select -> decompress on the PmappingGroups that make_pmappings really
+    produces (cells are not unique there, so identity is positional: compressed row k of
+    group g is source row k of group g, checked on the joining cells, and the decompressed
+    non-joining cells must equal that source row's)."""
+    import os
+    from sim import executor as ex, specgen, common
+    from accelforge.mapper.FFM import main as ffm
+    pd, cp, P = _S["pd"], _S["cp"], _S["P"]
+    COMP = "compressed_index"
+    viols = []
+    info = {"probes": {}}
+
+    def bad(cls, detail):
+        viols.append({"class": cls, "key": "real:" + cls, "detail": detail})
+
+    sim = ex.Sim(tape, W=sc["W"], order_mode=sc["order_mode"])
+    info["sim"] = sim
+    try:
+        spec = specgen.build_spec(sc["params"], common.scratch_root())
+        P.set_n_parallel_jobs(1)
+        pm = ffm.make_pmappings(spec, print_progress=False)
+    except Exception as e:
+        info["skipped"] = f"{type(e).__name__}"
+        P.set_n_parallel_jobs(os.cpu_count())
+        return viols, info
+    e2g = pm.einsum2pmappings
+    names = list(e2g.keys())
+    from accelforge.mapper.FFM._pareto_df.df_convention import col_used_in_joining
+    src = {n: [g.mappings.data.reset_index(drop=True).copy() for g in e2g[n]] for n in names}
+    info["probes"]["real_table_runs"] = 1
+    info["probes"]["real_table_groups"] = sum(len(v) for v in src.values())
+    info["probes"]["real_table_rows"] = sum(len(d) for v in src.values() for d in v)
+    if any(sum(len(d) for d in v) == 0 for v in src.values()):
+        info["skipped"] = "empty einsum"
+        return viols, info
+    P.set_n_parallel_jobs(sc["W"])
+    try:
+        with ex.install(sim):
+            compressed, dd = cp.compress_einsum2pmappings(e2g, print_progress=False)
+            if sc["compress_twice"]:
+                compressed, dd = cp.compress_einsum2pmappings(e2g, print_progress=False)
+    except Exception as e:
+        bad("compress_exception", f"{type(e).__name__}: {str(e)[:300]}")
+        return viols, info
+    finally:
+        P.set_n_parallel_jobs(os.cpu_count())
+    if list(compressed.keys()) != names or list(dd.data.keys()) != names:
+        bad("key_order", f"keys {list(compressed.keys())} / {list(dd.data.keys())} != input order {names}")
+        return viols, info
+
+    def same(a, b):
+        if _isnull(a) and _isnull(b):
+            return True
+        try:
+            return _eq(a, b) or a is b
+        except Exception:
+            return a is b
+
+    index_of = {}
+    for n in names:
+        col = f"{n}<SEP>{COMP}"
+        seen = {}
+        if len(compressed[n]) != len(src[n]):
+            bad("group_count", f"{n}: {len(compressed[n])} compressed groups for {len(src[n])} input groups")
+            return viols, info
+        for gi, (sdf, grp) in enumerate(zip(src[n], compressed[n])):
+            df = grp.mappings.data
+            if len(df) != len(sdf):
+                bad("row_count", f"{n} group {gi}: {len(df)} compressed rows for {len(sdf)} source rows")
+                return viols, info
+            jcols = [c for c in sdf.columns if col_used_in_joining(c)]
+            extra = [c for c in df.columns if c != col and c not in jcols]
+            if extra:
+                bad("nonjoin_col_kept", f"{n} group {gi}: {extra[:4]} kept in the compressed table")
+            for ri in range(len(df)):
+                ci = int(df[col].iloc[ri])
+                if ci in seen:
+                    bad("index_not_unique", f"{n}: compressed index {ci} used by {seen[ci]} and {(gi, ri)}")
+                    return viols, info
+                seen[ci] = (gi, ri)
+            for c in jcols:
+                if c in df.columns and not all(same(x, y) for x, y in zip(df[c].tolist(), sdf[c].tolist())):
+                    bad("compressed_cells", f"{n} group {gi} col {c}: compressed joining cells differ from source")
+                    return viols, info
+        index_of[n] = {v: k for k, v in seen.items()}
+    r = random.Random(sc["sel_seed"])
+    n_res = sc["n_result"]
+    sel = {}
+    for n in names:
+        allrows = [(gi, ri) for gi, d in enumerate(src[n]) for ri in range(len(d))]
+        bnd = [(gi, x) for gi, d in enumerate(src[n]) if len(d) for x in (0, len(d) - 1)]
+        sel[n] = [r.choice(bnd) if r.random() < 0.4 else r.choice(allrows) for _ in range(n_res)]
+    cols = {f"{n}<SEP>{COMP}": [index_of[n][p] for p in sel[n]] for n in names}
+    cols["Total<SEP>energy"] = [float(10 + i) for i in range(n_res)]
+    joined = _S["PmappingDataframe"](pd.DataFrame(cols), n_total_pmappings=n_res, n_valid_pmappings=n_res,
+                                     ignored_resources=set(), drop_valid_reservations=False, skip_pareto=True)
+    try:
+        out = cp.decompress_pmappings(joined, dd).data
+    except Exception as e:
+        bad("decompress_exception", f"{type(e).__name__}: {str(e)[:300]}")
+        return viols, info
+    if len(out) != n_res:
+        bad("row_count", f"decompressed table has {len(out)} rows, joined table had {n_res}")
+        return viols, info
+    if [c for c in out.columns if COMP in c]:
+        bad("leftover_index_col", "compressed_index columns survive decompression")
+    for n in names:
+        for k, (gi, ri) in enumerate(sel[n]):
+            sdf = src[n][gi]
+            for c in sdf.columns:
+                if col_used_in_joining(c):
+                    continue
+                if c not in out.columns:
+                    bad("decompress_cells", f"result row {k}: column {c} missing")
+                    return viols, info
+                if not same(out[c].iloc[k], sdf[c].iloc[ri]):
+                    bad("decompress_cells", f"result row {k} Einsum {n} (source group {gi} row {ri}) col {c}: "
+                        f"{out[c].iloc[k]!r} != {sdf[c].iloc[ri]!r}")
+                    return viols, info
+    info["sel"] = sel
+    return viols, info
+
+
 def _tape(sc, replay=None):
     from sim.tape import Tape
     return Tape(replay=replay) if replay is not None else Tape(seed=sc["tape_seed"])
@@ -342,6 +486,8 @@ def _tape(sc, replay=None):
 
 def run_seed(seed, ctx):
     from sim.minimize import minimize
+    if seed % REAL_EVERY == REAL_EVERY - 1:
+        return _run_real(seed)
     sc = gen_scenario(seed)
     tape = _tape(sc)
     viols, info = execute(sc, tape)
@@ -389,8 +535,37 @@ def run_seed(seed, ctx):
     return res
 
 
+def _run_real(seed):
+    from sim import common
+    sc = gen_real_scenario(seed)
+    tape = _tape(sc)
+    viols, info = execute_real(sc, tape)
+    common.purge_scratch()
+    sim = info["sim"]
+    st = {k: v for k, v in sim.stats.items() if k != "pickled_bytes"}
+    st.update(info["probes"])
+    if info.get("skipped"):
+        st["real_table_skipped"] = 1
+    sel = info.get("sel") or {}
+    deliv = sim.delivery_signature()
+    nontrivial = bool(sel) and any(len({p[0] for p in picks}) >= 2 for picks in sel.values())
+    res = {"evals": 1,
+           "keys": [hashlib.sha1(repr((sc["params"], sc["W"], deliv, sorted(sel.items()))).encode()).hexdigest()[:16]]
+           if nontrivial else [],
+           "interleavings": [hashlib.sha1(repr((sc["W"], deliv, sc["compress_twice"])).encode()).hexdigest()[:16]],
+           "stats": st, "sim_seconds": sim.now, "events_sha": tape.event_digest(), "violations": []}
+    if viols:
+        v = dict(viols[0])
+        v["replay"] = {"scenario": sc, "tape": tape.values(), "events_sha": tape.event_digest()}
+        res["violations"] = [v]
+    return res
+
+
 def replay(rp, ctx):
     sc = rp["scenario"]
     t = _tape(sc, replay=rp["tape"])
+    if sc.get("real"):
+        viols, info = execute_real(sc, t)
+        return {"violations": viols, "events_sha": t.event_digest()}
     viols, info = execute(sc, t)
     return {"violations": viols, "events_sha": t.event_digest()}
